@@ -118,9 +118,14 @@ C15Seq3(S, maxat) == UNION {Seq3Of(s, maxat) : s \in {x \in S : HasOpt(x)}}
 FailsPlain(s, maxat) == {f \in Fails(s, maxat) : f.patch = <<>>} \cup {[patch |-> <<>>, fail |-> "noclass", at |-> 0, thr |-> 1]}
 C14Seq(S, maxat, mks) == UNION {{Graph(s, "rp", TRUE, mk, FALSE, <<f, Ld(<<>>)>>, FALSE) : f \in FailsPlain(s, maxat), mk \in mks}
                                 : s \in {x \in S : HasOpt(x)}}
+\* ---- two threads loading at the same time (the library does: every worker frontend thread calls loads) ----
+Par2(s, rm, mk) == Graph(s, "rp", rm, mk, FALSE, <<Ld(<<>>), [Ld(<<>>) EXCEPT !.thr = 2]>>, TRUE)
+C14Par(S, mks) == {Par2(s, TRUE, mk) : s \in {x \in S : HasOpt(x)}, mk \in mks}
 \* ---- C13: graphs without opt-in objects under both flags; opt-in graphs with remote=False and under the standard operations ----
 C13Graphs(Splain, Sopt, Sstd) == UNION {
   {Graph(s, "rp", rm, FALSE, FALSE, <<Ld(<<>>)>>, FALSE) : s \in Splain, rm \in BOOLEAN},
+  \* plain data loaded by two threads at the same time
+  {Par2(s, rm, FALSE) : s \in {x \in Splain : \E i \in 1..Len(x.g) : x.g[i].kind = "plain"}, rm \in BOOLEAN},
   \* plain data on a thread whose previous loads raised (truncated stream)
   {Graph(s, "rp", rm, FALSE, FALSE, <<[patch |-> <<>>, fail |-> "trunc", at |-> 0, thr |-> 1], Ld(<<>>)>>, FALSE) : s \in Splain, rm \in BOOLEAN},
   {Graph(s, "rp", FALSE, mk, sn, <<Ld(<<>>)>>, FALSE) : s \in {x \in Sopt : HasOpt(x)}, mk \in BOOLEAN, sn \in BOOLEAN},
@@ -141,15 +146,17 @@ S_tree3(u)   == Shapes(1..3, All3, 0, FALSE)                        \* <= 3 node
 S_five(u)    == Shapes({5}, {"opt", "cont"}, 0, FALSE)              \* 5-node trees of opt-in objects and containers
 
 ScnSet(name) ==
-  CASE name = "C13_quick"    -> UNION {Cls(3), Leaf, C13Graphs(S_plain3(0), UNION {S_noflag3(0), S_opt2(0)}, S_noflag3(0))}
-    [] name = "C13_thorough" -> UNION {Cls(4), Leaf, C13Graphs(S_plain4(0), UNION {S_small(0), S_fourx(0)}, UNION {S_small(0), S_fourx(0)})}
-    [] name = "C14_quick"    -> UNION {C14Of(UNION {S_small(0), S_four(0), FalsyOf(S_tree3(0))}, BOOLEAN), C14Seq(S_opt2(0), 2, BOOLEAN)}
+  CASE name = "C13_quick"    -> UNION {Cls(3), Leaf, C13Graphs(S_plain3(0), UNION {S_noflag3(0), S_opt2(0), FalsyOf(S_opt2(0))}, S_noflag3(0))}
+    [] name = "C13_thorough" -> UNION {Cls(4), Leaf, C13Graphs(S_plain4(0), UNION {S_small(0), S_fourx(0), FalsyOf(S_noflag3(0))}, UNION {S_small(0), S_fourx(0)})}
+    [] name = "C14_quick"    -> UNION {C14Of(UNION {S_small(0), S_four(0), FalsyOf(S_tree3(0))}, BOOLEAN), C14Seq(S_opt2(0), 2, BOOLEAN), C14Par(S_opt2(0), BOOLEAN)}
     [] name = "C14_thorough" -> UNION {C14Of(UNION {S_three2(0), S_fourf(0), S_five(0), FalsyOf(UNION {S_noflag3(0), S_four(0)})}, BOOLEAN),
-                                       C14Seq(UNION {S_noflag3(0), S_opt2(0)}, 4, BOOLEAN)}
+                                       C14Seq(UNION {S_noflag3(0), S_opt2(0)}, 4, BOOLEAN), C14Par(UNION {S_noflag3(0), S_opt2(0)}, BOOLEAN)}
     [] name = "C15_quick"    -> UNION {C15P(S_small(0), TRUE), C15P(S_four(0), FALSE), C15Seq(S_opt2(0), 2)}
     [] name = "C15_thorough" -> UNION {C15P(UNION {S_three2(0), S_fourx(0)}, TRUE), C15Seq(S_noflag3(0), 4), C15Seq(S_opt2(0), 3), C15Seq3(S_opt2(0), 2)}
     [] name = "tiny"         -> C14Of(S_opt2(0), {FALSE})
-    [] name = "wit"          -> UNION {Cls(2), {x \in Leaf : x.wrap = "bare"}, C13Graphs({}, S_opt2(0), {}), C15Seq(S_opt2(0), 1), C14Of(FalsyOf(S_opt2(0)), {FALSE})}
+    [] name = "wit"          -> UNION {Cls(2), {x \in Leaf : x.wrap = "bare"}, C13Graphs({}, S_opt2(0), {}), C15Seq(S_opt2(0), 1), C14Of(FalsyOf(S_opt2(0)), {FALSE}),
+                                       C13Graphs(Shapes(1..2, {"plain", "cont"}, 0, FALSE), {}, {}), C15P(Shapes({3}, {"opt"}, 0, FALSE), FALSE)}
+    [] name = "par"          -> UNION {C13Graphs(Shapes(1..2, {"plain", "cont"}, 0, FALSE), {}, {}), C14Par(S_opt2(0), {FALSE}), C15Seq(S_opt2(0), 1)}
     [] name = "env"          -> Rng(JsonDeserialize(IOEnv.SCN_FILE))     \* hand-picked scenarios (replays, smoke tests)
 \* the scenario set is named by the environment variable RP_SET and enumerated once, by the initial predicate
 MCInit == InitWith(ScnSet(IOEnv.RP_SET))
